@@ -28,6 +28,46 @@ func copyStump(s u.Stump) u.Stump {
 	return u.Stump{Roots: append([]u.Hash{}, s.Roots...), NumLeaves: s.NumLeaves}
 }
 
+func u32s(l []uint32) string {
+	c := make([]uint64, len(l))
+	for i, v := range l {
+		c[i] = uint64(v)
+	}
+	return us(c)
+}
+
+// puResult prints what a Proof.Update / Proof.Undo call left behind: the returned hashes and the
+// receiver's Targets and Proof after the call, or err.
+func puResult(nh []u.Hash, p u.Proof, err error) string {
+	if err != nil {
+		return "err"
+	}
+	return fmt.Sprintf("ok %s %s %s", hs(nh), us(p.Targets), hs(p.Proof))
+}
+
+// puUpdate calls p.Update and emits the PU event (inputs as they were before the call).
+func puUpdate(e *emitter, p *u.Proof, ch, adds []u.Hash, targets []uint64, remembers []uint32, ud u.UpdateData) ([]u.Hash, error) {
+	tBefore := append([]uint64{}, p.Targets...)
+	pBefore := append([]u.Hash{}, p.Proof...)
+	chBefore := append([]u.Hash{}, ch...)
+	nh, err := p.Update(ch, adds, targets, remembers, ud)
+	e.line("PU Update %s %s %s %s %s %s %s %d %s %s = %s", us(tBefore), hs(pBefore), hs(chBefore), hs(adds), us(targets),
+		u32s(remembers), us(ud.ToDestroy), ud.PrevNumLeaves, pairs(ud.NewDelPos, ud.NewDelHash), pairs(ud.NewAddPos, ud.NewAddHash),
+		puResult(nh, *p, err))
+	return nh, err
+}
+
+// puUndo calls p.Undo and emits the PU event (inputs as they were before the call).
+func puUndo(e *emitter, p *u.Proof, numAdds, numLeaves uint64, dels []uint64, delHashes, ch []u.Hash, toDestroy []uint64, proof u.Proof) ([]u.Hash, error) {
+	tBefore := append([]uint64{}, p.Targets...)
+	pBefore := append([]u.Hash{}, p.Proof...)
+	chBefore := append([]u.Hash{}, ch...)
+	nh, err := p.Undo(numAdds, numLeaves, dels, delHashes, ch, toDestroy, proof)
+	e.line("PU Undo %s %s %d %d %s %s %s %s %s %s = %s", us(tBefore), hs(pBefore), numAdds, numLeaves, us(dels), hs(delHashes),
+		hs(chBefore), us(toDestroy), us(proof.Targets), hs(proof.Proof), puResult(nh, *p, err))
+	return nh, err
+}
+
 // genLightClient: a client holding only (stump, proof, hashes), updated from block data alone (C07),
 // undone newest-first and updated again (C08).
 func genLightClient(cfg runCfg, e *emitter, rng *rand.Rand, withUndo bool) {
@@ -91,7 +131,7 @@ func genLightClient(cfg runCfg, e *emitter, rng *rand.Rand, withUndo bool) {
 				}
 				rec.ud = ud
 				rec.numLeaves = stump.NumLeaves
-				nh, err := cp.Update(ch, adds, proof.Targets, remembers, ud)
+				nh, err := puUpdate(e, &cp, ch, adds, proof.Targets, remembers, ud)
 				if err != nil {
 					e.hfail("Proof.Update", "%v", err)
 					ok = false
@@ -108,7 +148,7 @@ func genLightClient(cfg runCfg, e *emitter, rng *rand.Rand, withUndo bool) {
 						rem2 = append(rem2, uint32(i))
 					}
 				}
-				nh2, err := cp2.Update(ch2, adds, proof.Targets, rem2, ud)
+				nh2, err := puUpdate(e, &cp2, ch2, adds, proof.Targets, rem2, ud)
 				if err != nil {
 					e.hfail("Proof.Update.second", "%v", err)
 					ok = false
@@ -152,14 +192,14 @@ func genLightClient(cfg runCfg, e *emitter, rng *rand.Rand, withUndo bool) {
 					rec := hist[len(hist)-1]
 					hist = hist[:len(hist)-1]
 					guarded(e, "lightclient.undo", func() {
-						nh, err := cp.Undo(uint64(len(rec.adds)), rec.numLeaves, rec.targets, rec.dels, ch, rec.ud.ToDestroy, rec.proof)
+						nh, err := puUndo(e, &cp, uint64(len(rec.adds)), rec.numLeaves, rec.targets, rec.dels, ch, rec.ud.ToDestroy, rec.proof)
 						if err != nil {
 							e.hfail("Proof.Undo", "%v", err)
 							ok = false
 							return
 						}
 						ch = nh
-						nh2, err := cp2.Undo(uint64(len(rec.adds)), rec.numLeaves, rec.targets, rec.dels, ch2, rec.ud.ToDestroy, rec.proof)
+						nh2, err := puUndo(e, &cp2, uint64(len(rec.adds)), rec.numLeaves, rec.targets, rec.dels, ch2, rec.ud.ToDestroy, rec.proof)
 						if err != nil {
 							e.hfail("Proof.Undo.second", "%v", err)
 							ok = false
